@@ -83,6 +83,7 @@ class Repo(object):
                 for child in ast.iter_child_nodes(parent):
                     child._parent = parent
         self._cache = {}
+        self.tier = 'quick'
 
     def tree(self, rel):
         try:
@@ -299,6 +300,7 @@ def run_check(prop, tier, fn, explanation, technique):
     repo = None
     try:
         repo = Repo()
+        repo.tier = tier
         fn(repo, res)
     except AnalysisError as e:
         print('ANALYSIS-ERROR property=%s %s' % (prop, e))
